@@ -3,10 +3,12 @@
 # This only verifies the toolchain the checks rely on and creates the scratch directories.
 cd "$(dirname "$0")/.." || exit 2
 mkdir -p build evidence replays
-for t in gcc g++ ar python3 gcov gdb rustc; do
+for t in gcc g++ clang ar nm python3 gcov gdb rustc; do
   command -v $t >/dev/null 2>&1 || { echo "setup: missing tool $t"; exit 2; }
 done
 echo 'int main(void){return 0;}' > build/.t.c
 gcc -fsanitize=address,undefined build/.t.c -o build/.t -lquadmath -lm || { echo "setup: sanitizer/quadmath link failed"; exit 2; }
-rm -f build/.t build/.t.c
+# the `clang` configurations link clang-instrumented objects against gcc's sanitizer runtime
+clang -O1 -fsanitize=address,undefined -c build/.t.c -o build/.t.o && gcc -fsanitize=address,undefined build/.t.o -o build/.t && ./build/.t || { echo "setup: clang object does not link/run with gcc's sanitizer runtime"; exit 2; }
+rm -f build/.t build/.t.c build/.t.o
 echo setup ok
